@@ -204,7 +204,7 @@ extern "C" void h_find_chunk(void) {
   ChunkReader r; r.length = vf_nondet_u64(); vf_assume(r.length <= 64);
   VF_TRY {
     uint32_t len = Archive::ClmFile::FindChunk(Archive::tagDATA, r);
-    vf_assert(r.Position() <= r.Length() && r.Position() >= 20, "found chunk header lies inside the file");
+    vf_assert(r.Position() <= r.Length(), "found chunk header lies inside the file");
     VF_WITNESS();
   } VF_CATCH
 }
